@@ -935,6 +935,9 @@ class Note:
             new_note.type = base_note.type
             new_note.val = base_note.val
             new_note.octave = base_note.octave
+            # An absolute note depends on no scale: its per-note mode and accidental must not colour the scale note
+            new_note.mode = None
+            new_note.accident = None
             return new_note
         else:
             return self.add_tags(self.tags)
